@@ -6,12 +6,18 @@ Read-history checker.  A case is (pipeline spec, history):
              supervised from X/Y, from a generic source with label_col/take, from CSV/ARFF/LibSVM/Manik files,
              from_result (object / file), from_save, from_custom over a caller-owned interaction list)
              followed by a type-compatible chain of 0-6 built-in filters chosen by a small kind-tracker (Appendix B);
-  history  = a word over {FULL, PARTIAL(k, close|drop), PARAMS, MATERIALIZE, CACHE, CHUNK, PICKLE, SAVE}.
+  history  = a word over {FULL, PARTIAL(k, close|drop), PARAMS, MATERIALIZE, CACHE, CHUNK, PICKLE, SAVE}; a FULL / PARTIAL read
+             may carry one params look-up made INSIDE the read, at the moment j interactions have been pulled (j = 0: read() has
+             returned its iterator but nothing has been pulled yet -- the lazy pipeline has not started).
+Contexts / actions include categoricals one or two levels down inside list / dict / tuple cells (dense and sparse contexts,
+dense actions), from sources that keep the caller's rows (X/Y, row lists, lambda tables, interaction lists).
 
 The history is executed on ONE object built from the spec.  Oracles (all on canonical values, never identity):
   * every FULL read equals the first FULL read, the first FULL read equals the FULL read of a FRESH object built from
     the same spec, every PARTIAL read is a prefix of that sequence;
-  * every params look-up after the first FULL read equals the first such look-up;
+  * every params look-up made once the object has been read (a complete read, or an abandoned read that pulled at least one
+    interaction) equals the first such look-up -- look-ups made inside a later read included -- and the first such look-up
+    (when no transformation preceded it) equals what a FRESH object built from the same spec reports after one complete read;
   * deep snapshots of every caller-owned input (X/Y, rows, interaction lists, lambda tables, files' bytes, Result
     object, filter argument objects, logging learner) taken before and after the history are identical.
 A violation is shrunk (filters / history steps removed while the same failure mode persists) so that the signature
@@ -23,7 +29,8 @@ from collections import Counter
 ID    = "C04"
 LEVEL = "exploration"
 RULE  = ("seeded (pipeline, history) pairs: source kind x kind-tracked filter chain of length 0-6 x history over "
-         "{FULL, PARTIAL(k,close|drop), PARAMS, MATERIALIZE, CACHE, CHUNK, PICKLE, SAVE}; one case = one history "
+         "{FULL, PARTIAL(k,close|drop), PARAMS, MATERIALIZE, CACHE, CHUNK, PICKLE, SAVE}, reads optionally with one params "
+         "look-up inside the read after j pulled interactions (j=0: before the first pull); one case = one history "
          "executed on one object; distinct & non-trivial = distinct (source kind, filter-name chain, history-op "
          "sequence, view) whose first read succeeds, with a non-empty chain or a partial read / transformation "
          "in the history, and at least two interactions in the reference read")
@@ -33,7 +40,9 @@ REQUIRED = ["oracle.full-reread", "oracle.full-reread.two-or-more-interactions",
             "oracle.params", "oracle.snapshot", "oracle.after.MATERIALIZE", "oracle.after.CACHE", "oracle.after.CHUNK",
             "oracle.after.PICKLE", "oracle.after.SAVE", "reach.shuffle-on-logged", "reach.cache-then-partial",
             "reach.source.sup-xy", "reach.source.lambda", "reach.source.sup-file", "reach.source.result",
-            "reach.source.saved", "reach.source.syn", "reach.source.custom", "reach.source.sup-src"]
+            "reach.source.saved", "reach.source.syn", "reach.source.custom", "reach.source.sup-src",
+            "oracle.params-fresh", "oracle.params-during-read", "oracle.params.after-lookup-before-first-pull",
+            "oracle.params.after-abandoned-read-only", "reach.nested-categorical.encoded", "reach.nested-categorical.encoded.after-partial"]
 ASSUMPTIONS = [
     "seed=None (clock seeded) is never generated; filters that need optional packages (OpeRewards DM/DR, torch batches) are excluded",
     "a pipeline whose FIRST read raises the same exception type on the subject and on a fresh object is out of the domain "
@@ -45,7 +54,12 @@ ASSUMPTIONS = [
     "or BatchSafe(Finalize) follow (filters that re-order batches leave ragged batch sizes, which BatchSafe re-batches differently)",
     "reads compare canonical values (dense == dense, sparse == sparse, 1 == 1.0, NaN == NaN, reward functions by their values "
     "on the offered actions in action order), never object identity; the reader never mutates what it was handed",
-    "params are compared only among look-ups made after the first complete read (sources may learn n_actions while reading)",
+    "params are compared only among look-ups made once the object 'has been read': after the first complete read or after an "
+    "abandoned read that pulled at least one interaction (sources may learn n_actions while the first interaction is produced); "
+    "look-ups before that, and look-ups inside the object's first read, are performed but not judged",
+    "the comparison of params with a fresh object's params (after one complete read) is made only while no transformation has been "
+    "applied to the subject, with the two objects' temporary directories normalised",
+    "nested categoricals keep the same layout in every row of a column / key (coba locates categoricals by looking at the first row)",
 ]
 
 MAX_SHRINKS_PER_SHARD = 60
@@ -850,6 +864,33 @@ class Invalid(Exception): pass
 def _read_full(env):
     return [canon_interaction(i) for i in env.read()]
 
+_NOPEEK = object()
+def _lookup(env):
+    """-> (canonical params, exception)"""
+    try: return canon_params(env.params), None
+    except Exception as e: return None, e
+
+def _read(env, k=None, how="drop", peek=None):
+    """one read of `env`: complete (k None) or abandoned after k interactions (iterator closed or dropped).  When `peek` is a
+    number, params are looked up once INSIDE the read, at the moment `peek` interactions have been pulled (0: read() has been
+    called and the iterator exists, but nothing has been pulled yet).  -> (canonical interactions, look-up or _NOPEEK)"""
+    it = iter(env.read()); got = []; peeked = _NOPEEK
+    while True:
+        if peek is not None and peeked is _NOPEEK and len(got) == peek: peeked = _lookup(env)
+        if k is not None and len(got) >= k: break
+        try: x = next(it)
+        except StopIteration: break
+        got.append(canon_interaction(x))
+    if k is not None and how == "close" and hasattr(it, "close"): it.close()
+    del it
+    return got, peeked
+
+def _subst(v, a, b):
+    """canonical value with every occurrence of the path prefix a replaced by b (fresh and subject live in sibling directories)"""
+    if isinstance(v, str): return v.replace(a, b)
+    if isinstance(v, tuple): return tuple(_subst(x, a, b) for x in v)
+    return v
+
 def _transform(env, op, view, tmp, counter):
     """-> new env, or None when the transformation is not applicable (counted by the caller)"""
     from coba.environments import Environments, Cache, Chunk
@@ -889,6 +930,8 @@ def run_history(spec, ctx=None):
         except Exception as e:
             # not even a fresh object can be read: the chain is not type-compatible with the source (out of the domain)
             return "invalid", [(f"first-read-raises.{type(e).__name__}", f"{type(e).__name__}: {e}")]
+        fresh_params, e = _lookup(fresh.env)              # what an identical object reports after one complete read
+        if e is None: fresh_params = _subst(fresh_params, os.path.join(tmp, "fresh"), "$TMP")
         fsnap1 = snapshot_owned(fresh.owned)
         if ctx is not None: ctx.extra["_n_ref"] = len(ref)
         note("oracle.snapshot", len(fsnap0))
@@ -904,11 +947,41 @@ def run_history(spec, ctx=None):
         counter = itertools.count()
         first_full = None; first_params = None; since = []      # ops since the last FULL
         any_full = False
+        has_read = False           # a complete read, or an abandoned read that pulled at least one interaction, has happened
+        transformed = False; n_reads = 0; early_lookup = False
+        def judge(p, exc, after, inside=False):
+            """a params look-up made once the object has been read; -> True when a violation was recorded"""
+            nonlocal first_params
+            note("oracle.params")
+            if inside: note("oracle.params-during-read")
+            if early_lookup: note("oracle.params.after-lookup-before-first-pull")
+            where = "params looked up inside a read" if inside else "params"
+            if exc is not None:
+                viol.append((f"params:raise:{type(exc).__name__}", f"{where} after [{after}] raises {type(exc).__name__}: {exc}")); return True
+            def keys_of(x, y):
+                a, b = (dict(t) if isinstance(t, tuple) and all(isinstance(u, tuple) and len(u) == 2 for u in t) else {} for t in (x, y))
+                ks = sorted(k for k in set(a) | set(b) if a.get(k) != b.get(k))
+                return f"keys {ks}: {[(a.get(k), b.get(k)) for k in ks][:3]}"
+            if first_params is None:
+                first_params = p
+                if not transformed and fresh_params is not None:
+                    note("oracle.params-fresh")
+                    q = _subst(p, os.path.join(tmp, "subj"), "$TMP")
+                    if q != fresh_params:
+                        viol.append(("params:differ-from-fresh", f"{where} after [{after}] differ from what an identical object reports after one complete read in {keys_of(fresh_params, q)}")); return True
+            elif p != first_params:
+                viol.append(("params:differ", f"{where} after [{after}] differ from the first look-up in {keys_of(first_params, p)}")); return True
+            return False
         for n_op, op in enumerate(spec["history"]):
             kind = op[0]
             if kind == "FULL":
-                try: got, exc = _read_full(env), None
-                except Exception as e: got, exc = None, e
+                peek = op_peek(op)
+                try: (got, peeked), exc = _read(env, None, "drop", peek), None
+                except Exception as e: got, peeked, exc = None, _NOPEEK, e
+                n_reads += 1
+                if exc is None and peeked is not _NOPEEK:
+                    if n_reads == 1 and peek == 0: early_lookup = True
+                    if has_read and judge(peeked[0], peeked[1], ">".join(since) or "FULL", inside=True): break
                 if not any_full:
                     # first complete read of the subject: compare with the fresh object's read
                     note("oracle.fresh")
@@ -931,38 +1004,30 @@ def run_history(spec, ctx=None):
                     d = diff_reads(got, first_full)
                     if d:
                         viol.append((f"reread:{d[0]}", f"full read after [{after}] differs from the first full read: {d[1]}")); break
+                has_read = True
                 since = []
             elif kind == "PARTIAL":
-                k, how = op[1], op[2]
-                try:
-                    it = iter(env.read())
-                    got = [canon_interaction(i) for i in itertools.islice(it, k)]
-                    if how == "close" and hasattr(it, "close"): it.close()
-                    del it
-                    exc = None
-                except Exception as e:
-                    got, exc, it = None, e, None
+                k, how = op[1], op[2]; peek = op_peek(op)
+                try: (got, peeked), exc = _read(env, k, how, peek), None
+                except Exception as e: got, peeked, exc = None, _NOPEEK, e
+                n_reads += 1
                 note("oracle.partial-prefix")
                 after = ">".join(since) or "nothing"
                 if exc is not None:
                     viol.append((f"partial:raise:{type(exc).__name__}", f"reading the first {k} interactions after [{after}] raises {type(exc).__name__}: {exc}")); break
+                if peeked is not _NOPEEK:
+                    if n_reads == 1 and peek == 0: early_lookup = True
+                    if has_read and judge(peeked[0], peeked[1], after, inside=True): break
                 if got != ref[:k]:
                     d = diff_reads(got, ref[:k])
                     viol.append((f"partial:{d[0]}", f"the first {k} interactions read after [{after}] are not the prefix of the sequence: {d[1]}")); break
+                if got: has_read = True
                 since.append("PARTIAL")
             elif kind == "PARAMS":
-                try: p, exc = canon_params(env.params), None
-                except Exception as e: p, exc = None, e
-                if any_full:
-                    note("oracle.params")
-                    after = ">".join(since) or "FULL"
-                    if exc is not None:
-                        viol.append((f"params:raise:{type(exc).__name__}", f"params after [{after}] raises {type(exc).__name__}: {exc}")); break
-                    if first_params is None: first_params = p
-                    elif p != first_params:
-                        a, b = dict(first_params) if isinstance(first_params, tuple) and all(len(x) == 2 for x in first_params) else {}, dict(p) if isinstance(p, tuple) and all(len(x) == 2 for x in p) else {}
-                        keys = sorted(k for k in set(a) | set(b) if a.get(k) != b.get(k))
-                        viol.append((f"params:differ", f"params after [{after}] differ from the first look-up in keys {keys}: {[ (a.get(k), b.get(k)) for k in keys][:3]}")); break
+                p, exc = _lookup(env)
+                if has_read:
+                    if not any_full: note("oracle.params.after-abandoned-read-only")
+                    if judge(p, exc, ">".join(since) or "FULL"): break
                 since.append("PARAMS")
             else:
                 try:
@@ -971,7 +1036,7 @@ def run_history(spec, ctx=None):
                     note(f"skip.transform.{kind}.{e}"); continue
                 except Exception as e:
                     viol.append((f"transform:{kind}:raise:{type(e).__name__}", f"{kind} after [{'>'.join(since) or 'nothing'}] raises {type(e).__name__}: {e}")); break
-                env = new; since.append(kind)
+                env = new; since.append(kind); transformed = True
         # ---------------- caller-owned data
         snap1 = snapshot_owned(sub.owned)
         note("oracle.snapshot", len(snap0))
@@ -1013,6 +1078,11 @@ def shrink(spec, kind):
             cand = dict(cur, history=cur["history"][:i] + cur["history"][i+1:])
             if cand["history"] and still(cand): cur = cand; changed = True; break
         if changed: continue
+        for i, o in enumerate(cur["history"]):                   # a params look-up inside a read: needed?
+            if op_peek(o) is not None:
+                cand = dict(cur, history=cur["history"][:i] + [op_without_peek(o)] + cur["history"][i+1:])
+                if still(cand): cur = cand; changed = True; break
+        if changed: continue
         for i in range(len(cur["chain"])):
             cand = dict(cur, chain=cur["chain"][:i] + cur["chain"][i+1:])
             if still(cand): cur = cand; changed = True; break
@@ -1037,6 +1107,8 @@ def signature(spec, kind):
     elif "PARTIAL" in ops: after = "after-partial"
     elif ops.count("FULL") >= 2: after = "reread"
     else: after = "single-read"
+    peeks = [op_peek(o) for o in spec["history"] if op_peek(o) is not None]
+    if peeks: after += "+params-before-first-pull" if 0 in peeks else "+params-during-read"
     return f"{kind}/{where}/{after}"
 
 def check_case(spec, ctx=None, do_shrink=True):
@@ -1057,6 +1129,12 @@ def check_case(spec, ctx=None, do_shrink=True):
             if "Shuffle" in names and ("Logged" in names[:names.index("Shuffle")] or spec["source"]["kind"] in ("result",) or
                                        any("action" in i for i in spec["source"].get("interactions", [])[:1])): ctx.count("reach.shuffle-on-logged")
             if ("Cache" in names or "CACHE" in hist or "CHUNK" in hist) and "PARTIAL" in hist: ctx.count("reach.cache-then-partial")
+            shape = spec.get("shape", {})
+            if "nested-cat" in str(shape.get("ctx")) or "nested-cat" in str(shape.get("acts")):
+                ctx.count("reach.nested-categorical")
+                if spec["view"] == "final" or {"Finalize", "Repr"} & set(names):
+                    ctx.count("reach.nested-categorical.encoded")
+                    if "PARTIAL" in hist: ctx.count("reach.nested-categorical.encoded.after-partial")
     if status == "invalid": return []
     out = []
     seen = set()
